@@ -15,6 +15,7 @@ package c18
 import (
 	"bufio"
 	"bytes"
+	"context"
 	"crypto/tls"
 	"encoding/json"
 	"errors"
@@ -22,6 +23,7 @@ import (
 	"io"
 	"net"
 	"net/http"
+	"net/url"
 	"strings"
 	"sync"
 	"sync/atomic"
@@ -139,6 +141,15 @@ func requestRules(rules []string) ([]forwarder.RequestModifierFunc, error) {
 	}}, nil
 }
 
+// asRunComposes: command/run (configureTransportProxy) ALWAYS installs GetProxyConnectHeader on the transport —
+// without --connect-header rules and Kerberos it returns an empty header —, and martian hands that function to
+// the CONNECT dialer next to the client's header. A transport without it is not what `forwarder run` runs.
+func asRunComposes(rt *http.Transport) {
+	rt.GetProxyConnectHeader = func(context.Context, *url.URL, string) (http.Header, error) {
+		return make(http.Header), nil
+	}
+}
+
 func newEnv(ctx *core.Ctx, mode string) (*env, error) {
 	e := &env{mode: mode}
 	e.upKind, e.tls = modeShape(mode)
@@ -202,6 +213,10 @@ func newEnv(ctx *core.Ctx, mode string) (*env, error) {
 			rig.Route("upstream.test", "3128", e.up.Addr),
 		},
 		Transport: func(tc *forwarder.HTTPTransportConfig) { tc.CACertFiles = []string{caFile} },
+		// one connection per forwarded request: with an idle pool the transport may start a dial for a request and then
+		// serve it on a connection that became idle meanwhile — the dialled connection is accepted by the hop at some
+		// later time, during whatever case runs then (a bare accept in a refused case would read as a contact)
+		PostTransport: func(rt *http.Transport) { rt.DisableKeepAlives = true; asRunComposes(rt) },
 		Configure: func(cfg *forwarder.HTTPProxyConfig) {
 			cfg.Name = proxyName
 			for _, m := range mods {
@@ -455,6 +470,10 @@ func (e *env) runChain(ctx *core.Ctx, cc *chainCase) {
 		nel = len(core.SplitList(a))
 	}
 	ctx.Count(fmt.Sprintf("via-elements/%d", nel))
+	countText(ctx, lines, cls)
+	if !cc.Connect && req.Absolute && req.Scheme == "https" && e.mode != "mitm" {
+		ctx.Count("kind/absolute-form-https")
+	}
 	if shape != "" {
 		ctx.Count("shape/" + shape)
 	}
@@ -494,7 +513,13 @@ func (e *env) runChain(ctx *core.Ctx, cc *chainCase) {
 		if res.Status == 200 {
 			tunnelled = true
 			if e.mode != "mitm" && (e.upKind == "" || e.upKind == "socks5") {
-				waitFor(func() bool { return e.contacts().accepts > before.accepts }, time.Second)
+				// direct: the target accepts; socks5: the SOCKS server accepts AND the target it connects to (the second
+				// accept may be counted after the 200 arrived; left uncounted it would show up in the next case)
+				want := before.accepts + 1
+				if e.upKind == "socks5" {
+					want++
+				}
+				waitFor(func() bool { return e.contacts().accepts >= want }, time.Second)
 			}
 		}
 	} else {
@@ -587,6 +612,36 @@ func (e *env) runChain(ctx *core.Ctx, cc *chainCase) {
 			ctx.Disagree("a detected loop is answered by the proxy itself (X-Forwarder-Error)", cc, impl, "X-Forwarder-Error present")
 			ok = false
 		}
+		// the loop error on its way through errorResponse (Model/C18Err.lean): status by the handler list, the text
+		// (it embeds the chain as received) in X-Forwarder-Error and in the body
+		https := !cc.Connect && (e.mode == "mitm" || (req.Absolute && req.Scheme == "https") || (!req.Absolute && e.tls))
+		var trimmed []string
+		for _, l := range lines {
+			trimmed = append(trimmed, strings.Trim(l, " \t"))
+		}
+		lc := strings.Fields(ask(ctx, "loopclass", core.Itoa(b2i(https)), hexLines(trimmed)))
+		if len(lc) != 3 {
+			core.Fatalf("C18 loopclass: unexpected answer %q", lc)
+		}
+		eb, _ := core.UnHex(lc[2])
+		errText := string(eb)
+		ctx.Count("loop-class/" + lc[0] + "-" + lc[1])
+		if fmt.Sprint(res.Status) != lc[0] {
+			ctx.Disagree("status of a detected loop = classification of the loop error by errorResponse's handler list (C18 loopclass)", cc, impl, lc[0]+" "+lc[1])
+			ok = false
+		}
+		if res.Status == 400 {
+			if got, want := strings.Trim(res.Get("X-Forwarder-Error"), " \t"), strings.Trim(proxyName+" "+errText, " \t"); got != want {
+				ctx.Disagree("X-Forwarder-Error of a detected loop = name SP loop error text (the chain as received)", cc, impl, want)
+				ok = false
+			}
+			if body := string(res.Body); len(body) > 0 &&
+				!(strings.HasPrefix(body, proxyName+" proxy error for host ") && strings.HasSuffix(body, "\n"+errText+"\n")) {
+				ctx.Disagree("body of the answer to a detected loop = name SP \"proxy error for host …\" LF loop error text LF", cc,
+					impl+fmt.Sprintf(" body=%q", body), "martian_error message + "+errText)
+				ok = false
+			}
+		}
 		if ok {
 			ctx.TraceValidated()
 		}
@@ -658,6 +713,13 @@ func (e *env) findConnect(from int) (*rig.Peer, *rig.Exchange) {
 		}
 	}
 	return nil, nil
+}
+
+func b2i(b bool) int {
+	if b {
+		return 1
+	}
+	return 0
 }
 
 func waitFor(cond func() bool, d time.Duration) bool {
@@ -869,7 +931,7 @@ func startInstance(variant string, next *passThrough, origin *rig.Peer) (*instan
 	opts := rig.ProxyOpts{
 		Configure: func(cfg *forwarder.HTTPProxyConfig) { cfg.Name = proxyName },
 		// one connection per forwarded request: the pass-through peers count forwards
-		PostTransport: func(rt *http.Transport) { rt.DisableKeepAlives = true },
+		PostTransport: func(rt *http.Transport) { rt.DisableKeepAlives = true; asRunComposes(rt) },
 	}
 	if next != nil {
 		switch variant {
